@@ -47,7 +47,14 @@ CLAIM = dict(
 SCHEMES = ["http", "http", "http", "https", "https", "https", "ws", "wss"]
 SCRIPTS = ["/", "/", "/app", "/app/", "/a/b", "/a/b/", ""]
 SERVERS = ["example.com", "example.com:8080", "EXAMPLE.com"]
-QUERIES = [None, None, "a=1&b=2", (("q", "x y"), ("r", "é")), "", (), "x=%2F%2Fevil.com&y", "a=1#frag"]
+QUERIES = [None, None, "a=1&b=2", (("q", "x y"), ("r", "é")), "", (), "x=%2F%2Fevil.com&y", "a=1#frag",
+           # query_args as request.args / a MultiDict with repeated keys, a dict of lists, a list of pairs, None values, non-strings
+           ("@multidict", (("k", "v"), ("q", "x y"), ("k", "w"), ("k", "é"))),
+           ("@immutable", (("a", "1"), ("b", "2"), ("a", "3"))),
+           ("@multidict", (("tag", "a&b"), ("tag", "c=d"), ("n", None), ("tag", "//evil.com"))),
+           ("@lists", (("k", "v"), ("k", "w"), ("z", 7))),
+           ("@lists1", (("k", "v"), ("k", None), ("k", "w"), ("one", "1"))),
+           ("@pairs", (("b", "2"), ("a", "1"), ("b", "3")))]
 
 
 ENV_QUERIES = ["q=été&lang=fr", "tag=日本", "q=%C3%A9t%C3%A9&q=%20", "a=1&b=2", "", "q=naïve&x=%2F%2Fevil.com", "k=v&k=w", "q=über+alles"]
@@ -566,7 +573,8 @@ def main(chk: Check) -> None:
     chk.trusted += [
         "everything listed for C03 (the statement pins tools/pins/c03_*.txt cover Map.bind / bind_to_environ, MapAdapter.match / build / get_default_redirect / make_redirect_url / make_alias_redirect_url / encode_query_args; translator tools/c03.py, extraction + coq/C03/driver.ml, converter language predicates, sort stability)",
         "urllib.parse.urlunsplit, quote and str.encode('utf-8') hand-modelled (validated differentially); urllib.parse.uses_netloc tabulated from the interpreter",
-        "encode_query_args of a mapping (werkzeug.urls._urlencode) is an input of the model",
+        "the bound query string is an input of the model; for query_args given as a mapping / MultiDict / list of pairs the harness computes it as the "
+        "urlencode of ALL items (iter_multi_items order, None dropped) from the pass-through table of coq/C02/Gen.v (the C02 model), not with werkzeug",
     ]
     run(chk)
     chk.finish(rule="maps from the C03 grammar with per-map and per-rule strict_slashes / merge_slashes, defaults + alias rules (documented idiom), "
